@@ -243,6 +243,10 @@ func datagram(r *rng.R, class string, serial, card uint32) []byte {
 		b = append(b, r.Bytes(1)...)
 	case "empty":
 		b = b[:0]
+	case "part1": // a valid reply delivered in two pieces: neither piece is a 64-byte message
+		b = b[:10]
+	case "part2":
+		b = b[10:]
 	case "long64":
 		b = append(b, r.Bytes(64)...)
 	case "wrong-serial":
